@@ -253,16 +253,14 @@ func Analyze(events []Event, meta []MsgMeta, max int) *Analysis {
 			id := e.ID
 			inst := live[id]
 			m := metaOf(curK)
-			sync := curK >= 0 && m.ID == id
+			// An envelope written by the goroutine that runs ServeJSONSocket
+			// answers the message being handled; it does not belong to the
+			// subscription that happens to own the same id.
+			sync := e.Sync && curK >= 0
 			if sync && e.Type == "error" {
 				winErr++
 			}
-			// An error envelope written while a message with the same id is
-			// being handled answers that message, not the subscription that
-			// owns the id (first such envelope of the window; messages that
-			// never answer with an error excepted).
-			if inst != nil && sync && e.Type == "error" && inst.MsgK != curK && winErr == 1 &&
-				m.Type != "echo" && m.Type != "unsubscribe" {
+			if sync {
 				inst = nil
 			}
 			if inst != nil {
